@@ -137,15 +137,15 @@ class Closure:
         self.fn, self.caps = fn, tuple(caps)
 
     def __repr__(self):
-        return f'Closure({self.fn.split("::")[-1]},{list(self.caps)})'
+        return f'Closure({getattr(self.fn, "name", self.fn)},{list(self.caps)})'
 
 
 class FnItem:
     """zero-sized function item / fn pointer"""
-    __slots__ = ('path',)
+    __slots__ = ('path', 'crate')
 
-    def __init__(self, path):
-        self.path = path
+    def __init__(self, path, crate=None):
+        self.path, self.crate = path, crate
 
     def __repr__(self):
         return f'FnItem({self.path})'
